@@ -66,6 +66,8 @@ fn main() {
             finish(&out, gen::adversarial_histories(seed, n, maxlen, arg("--kind", "alter") == "requests"));
         }
         "configs" => { finish(&out, gen::config_histories(seed, n, arg("--maxops", "25").parse().unwrap())); }
+        "events" => { finish(&out, gen::event_histories(seed, n, arg("--maxops", "25").parse().unwrap())); }
+        "readonly" => { finish(&out, gen::readonly_histories(seed, n, arg("--maxops", "8").parse().unwrap(), arg("--crash", "0") == "1")); }
         "repl" => {
             let maxlen: u64 = arg("--maxlen", "20").parse().unwrap();
             let mode = match arg("--mode", "log").as_str() { "crash" => gen::Mode::Crash, "torn" => gen::Mode::Torn, _ => gen::Mode::Log };
